@@ -39,7 +39,7 @@ theorem call_steps2 {o : Oracle} {fuel op cap : Nat} {input : Bytes} {s s' : St}
     (h : compressStream o fuel s op input cap = .ok (s', io', true)) :
     ∃ evs s1, Steps o op (s, Io.start input cap) evs (s1, io') ∧ (∀ e ∈ evs, e ≠ .tau 0)
       ∧ Step o op (s1, io') (.tau 0) (s', io') ∧ s' = checkFlushComplete s1
-      ∧ (op ≠ 0 → ¬ (s1.pending.length = 0 ∧ s1.streamState = .processing)) := by
+      ∧ ExitOK op s1 io' := by
   unfold compressStream at h
   rw [ensureInitialized_id hI.init] at h
   simp only at h
